@@ -1,8 +1,9 @@
 #!/bin/bash
-# usage: tools/phaseB.sh name1 name2 ...   (names like c02_m1; mutant dirs /tmp/mut_<cXX>/deliver/<mN>)
+# usage: tools/phaseB.sh name1 name2 ...   names: c02_m1 (first wave, /tmp/mut_c02/deliver/m1) or w2_c02_m1 (second wave, /tmp/mut2_c02/...)
 for n in "$@"; do
-  x=${n%%_*}; m=${n##*_}; P=$(echo $x | tr c C)
+  if [[ "$n" == w2_* ]]; then r=${n#w2_}; x=${r%%_*}; m=${r##*_}; src=/tmp/mut2_$x/deliver/$m; else x=${n%%_*}; m=${n##*_}; src=/tmp/mut_$x/deliver/$m; fi
+  P=$(echo $x | tr c C)
   rm -f /verif/scratch/mut/$n/b.txt
-  /verif/tools/eval_mutant.sh $P /tmp/mut_$x/deliver/$m $n B > /verif/scratch/mut_$n.B.log 2>&1
+  /verif/tools/eval_mutant.sh $P $src $n B > /verif/scratch/mut_$n.B.log 2>&1
   echo "$n: $(tr '\n' ' ' < /verif/scratch/mut/$n/b.txt)"
 done
